@@ -147,9 +147,19 @@ Inductive origin_outcome := Resp (r : respmsg).
    not read it reads, or never reads, afterwards *)
 Inductive readmode := ReadAll | ReadSome (k : N).
 
-Record exchange := mkEx { rq : reqmsg; rs : origin_outcome; rd : readmode }.
+(* [flt]: the origin receives the request and then fails - it closes the
+   connection before it has sent a complete response head.  The proxy answers
+   with its own 502 (its form is C03's subject); for C01 what matters is that
+   the origin has received the request exactly once and that the connection
+   goes on. *)
+Record exchange := mkEx { rq : reqmsg; rs : origin_outcome; rd : readmode; flt : bool }.
 
-Definition resp_of (e : exchange) : respmsg := match rs e with Resp r => r end.
+(* the proxy-made answer to a failed round trip, as far as C01 looks at it *)
+Definition resp_502 : respmsg := mkResp 502 false [] (mkBody 0 250348346448124) FCL.
+
+(* the response the client must get *)
+Definition resp_of (e : exchange) : respmsg :=
+  if flt e then resp_502 else match rs e with Resp r => r end.
 
 (* ---------------------------------------------------------------- wire views *)
 
@@ -445,8 +455,14 @@ Definition req_preserved_e (e : exchange) (w : wire_req) : bool :=
 Definition c01_req_ok (es : list exchange) (o : conn_obs) : bool :=
   forall2b req_preserved_e (served es) (origin_saw o).
 
+(* after an origin failure only the status and the framing of the proxy's own
+   answer are demanded here (the rest of it is C03's) *)
+Definition res_preserved_e (e : exchange) (c : wire_res) : bool :=
+  if flt e then (N.eqb (c_status c) 502 && c_complete c)%bool
+  else res_preserved_b (resp_of e) c.
+
 Definition c01_res_ok (es : list exchange) (o : conn_obs) : bool :=
-  forall2b res_preserved_b (map resp_of (served es)) (client_got o).
+  forall2b res_preserved_e (served es) (client_got o).
 
 Definition c01_frm_ok (es : list exchange) (o : conn_obs) : bool :=
   forall2b res_framing_preserved_b (map resp_of (served es)) (client_got o).
@@ -523,7 +539,8 @@ Definition obs_agree (es : list exchange) (m o : conn_obs) : bool :=
   (forall3b (fun e a b => wreq_equiv (nominated (rhdrs (rq e))) a
                             (match rd e with ReadAll => b | ReadSome _ => with_body b (w_body a) end))
             (firstn (List.length (origin_saw m)) es) (origin_saw m) (origin_saw o)
-   && forall3b (fun e a b => (wres_equiv (nominated (shdrs (resp_of e))) a b
+   && forall3b (fun e a b => if flt e then (N.eqb (c_status a) (c_status b) && Bool.eqb (c_complete a) (c_complete b))%bool else
+                             (wres_equiv (nominated (shdrs (resp_of e))) a b
                                && match sframing (resp_of e) with
                                   | FBodiless => forallb (fun n => strs_eqb (vals n (c_hdrs a)) (vals n (c_hdrs b))) framing_names
                                   | _ => true
